@@ -315,6 +315,12 @@ func (cs *autoGrowingCallFrameStack) SetSp(sp int) {
 		cs.segments[cs.segIdx] = nil
 		cs.segIdx--
 	}
+	if cs.segIdx < desiredSegIdx {
+		// sp lies exactly on a segment boundary and the segment above it was never allocated (nothing has been
+		// pushed since the current segment filled up): the current segment stays full.
+		cs.segSp = FramesPerSegment
+		return
+	}
 	cs.segSp = desiredFramesInLastSeg
 }
 
